@@ -133,25 +133,22 @@ Definition merge_pf (lk lv rk rv : list nat) : list nat * list nat :=
 Definition merge_vals (lk lv rk rv : list nat) : list nat := snd (merge_pf lk lv rk rv).
 
 (* src: Core.cpp:match(const PartialKeys & lhsK, const PartialValues & lhs, const PartialKeys & rhsK,
-   const PartialValues & rhs).  [None] = the loop reads bigger[i] past the end (unchecked in C++). *)
-Fixpoint match_go (fuel : nat) (bk bv sk sv : list nat) : option bool :=
+   const PartialValues & rhs): "while (j < smallerK->size() && i < biggerK->size())" (the bound on i
+   is /repo commit ee4b2be).  The fuel |bigger| + |smaller| + 1 given by the wrapper always suffices
+   (each iteration consumes a key); out of fuel returns true like the end of the loop. *)
+Fixpoint match_go (fuel : nat) (bk bv sk sv : list nat) : bool :=
   match fuel with
-  | 0 => None
+  | 0 => true
   | S fuel' =>
-    match sk, sv with
-    | [], _ => Some true
-    | s :: skt, vs :: svt =>
-        match bk, bv with
-        | b :: bkt, vb :: bvt =>
-            if b <? s then match_go fuel' bkt bvt sk sv
-            else if s <? b then match_go fuel' bk bv skt svt
-            else if vb =? vs then match_go fuel' bkt bvt skt svt else Some false
-        | _, _ => None
-        end
-    | _ :: _, [] => None
+    match sk, sv, bk, bv with
+    | s :: skt, vs :: svt, b :: bkt, vb :: bvt =>
+        if b <? s then match_go fuel' bkt bvt sk sv
+        else if s <? b then match_go fuel' bk bv skt svt
+        else if vb =? vs then match_go fuel' bkt bvt skt svt else false
+    | _, _, _, _ => true
     end
   end.
-Definition match_pf (lk lv rk rv : list nat) : option bool :=
+Definition match_pf (lk lv rk rv : list nat) : bool :=
   if length rk <? length lk then match_go (S (length lk + length rk)) lk lv rk rv
   else match_go (S (length lk + length rk)) rk rv lk lv.
 
@@ -349,3 +346,20 @@ Fixpoint toFactorsOut (space : list nat) (id : nat) (out : list nat) : list nat 
       | _ :: out' => (id mod sp) :: toFactorsOut space' (id / sp) out'
       end
   end.
+
+(* src: Core.cpp:toFactors(size_t F, const PartialFactors & pf): a zero vector with the listed
+   entries set, in order (a later duplicate key wins; an out-of-range key is an unchecked write,
+   ignored by the model) *)
+Fixpoint set_nth (i v : nat) (l : list nat) : list nat :=
+  match l with
+  | [] => []
+  | x :: t => match i with 0 => v :: t | S i' => x :: set_nth i' v t end
+  end.
+Fixpoint toFactorsPF_go (pk pv : list nat) (f : list nat) : list nat :=
+  match pk, pv with
+  | k :: ks, v :: vs => toFactorsPF_go ks vs (set_nth k v f)
+  | _, _ => f
+  end.
+Definition toFactorsPF (F : nat) (pk pv : list nat) : list nat := toFactorsPF_go pk pv (repeat 0 F).
+(* src: Core.cpp:toPartialFactors(const Factors & f) *)
+Definition toPartialFactors (f : list nat) : list nat * list nat := (seq 0 (length f), f).
